@@ -193,10 +193,11 @@ def make_classes(mod):
             w = self.world
 
             def serve():
-                if w.open[n] and data["sha"] == csha(n, w.head[n]):
+                # GitHub: `sha` is optional; when given it must be the head of the pull request (409 otherwise)
+                if w.open[n] and data.get("sha") in (None, csha(n, w.head[n])):
                     w.open[n] = False
                     w.T += 1
-                    w.merged_log.append((n, data["sha"]))
+                    w.merged_log.append((n, data.get("sha")))
                     return {"merged": True}
                 return mod.gidgethub.HTTPException("409 Head branch was modified. Review and try the merge again.")
             return await Call("merge", n, serve)
@@ -428,10 +429,8 @@ def apply_action(impl: Impl, name, args):
     elif name == "Notify":
         impl.notify(args[0])
     elif name in CI_ACTIONS:
-        resp = impl.serve(CI_ACTIONS[name], args[0] if args else 0)
-        if name == "MergeOk" and isinstance(resp, BaseException):
-            raise RuntimeError("spec says GitHub accepts the merge, the fake refused")
-        if name == "MergeRefused" and not isinstance(resp, BaseException):
-            raise RuntimeError("spec says GitHub refuses the merge, the fake accepted")
+        # MergeOk / MergeRefused: the fake decides from the request the code really sent; a disagreement with
+        # the spec shows up in the compared state (ghOpen, ghT, ci)
+        impl.serve(CI_ACTIONS[name], args[0] if args else 0)
     else:
         raise RuntimeError(f"unknown action {name}")
